@@ -456,8 +456,16 @@ impl MutableArchive {
                 let file_pos = self.archive.archive_offset() + block.file_pos as u64;
                 self.file.seek(SeekFrom::Start(file_pos))?;
 
-                let mut data = vec![0u8; block.compressed_size as usize];
-                self.file.read_exact(&mut data)?;
+                // The size comes from the block table: read through a length-limited
+                // adapter instead of allocating it up front
+                let stored_size = block.compressed_size as u64;
+                let mut data = Vec::new();
+                (&mut self.file).take(stored_size).read_to_end(&mut data)?;
+                if data.len() as u64 != stored_size {
+                    return Err(Error::Io(std::io::Error::from(
+                        std::io::ErrorKind::UnexpectedEof,
+                    )));
+                }
 
                 // Handle decompression/decryption if needed
                 // For now, assume (listfile) is uncompressed/unencrypted
